@@ -91,9 +91,11 @@ def cons_src(cons) -> str:
 
 
 class Realizer:
-    def __init__(self):
+    def __init__(self, env=None):
         self.lines: List[str] = []
         self.defined: Dict[str, Any] = {}
+        self.env = env or {}
+        self.completed = set()
 
     # -- expressions -----------------------------------------------------------------
     def expr(self, t: T) -> str:
@@ -130,7 +132,9 @@ class Realizer:
             head = {"dict": "Dict", "mapping": "Mapping", "bdict": "dict", "mutmapping": "MutableMapping"}[t.kind]
             return f"{head}[{self.expr(t.k)}, {self.expr(t.v)}]"
         if isinstance(t, Ref):
-            return repr(t.name)
+            if t.name not in self.defined and t.name in self.env:
+                self.define_obj(self.env[t.name])
+            return t.name if t.name in self.completed else repr(t.name)
         if isinstance(t, Obj):
             self.define_obj(t)
             return t.name
@@ -279,6 +283,7 @@ class Realizer:
                 L.append(f"    {f.name}: {ann}")
         else:
             raise TypeError(o.kind)
+        self.completed.add(o.name)
 
 
 class Realized:
@@ -311,8 +316,8 @@ def exec_source(source: str, name: str = None) -> types.ModuleType:
     return mod
 
 
-def realize(spec: T, extra_src: str = "", pre_src: str = "") -> Realized:
-    r = Realizer()
+def realize(spec: T, extra_src: str = "", pre_src: str = "", env=None) -> Realized:
+    r = Realizer(env)
     expr = r.expr(spec)
     source = PRELUDE + pre_src + "\n".join(r.lines) + "\n" + extra_src + f"\nTP = {expr}\n"
     mod = exec_source(source)
